@@ -59,6 +59,10 @@ def gen_cases(ctx):
                 cs[k] = (h, d2, t)
             elif kind == "flip-size":
                 i = rng.below(h.index(b";")); h2 = h[:i] + bytes([h[i] ^ (1 << rng.below(7))]) + h[i + 1:]
+                if same_size_spelling(h2, h):
+                    # the flipped bit only changed the spelling of the same number (f -> F): the upload is intact
+                    out.append((kind, G.partition(rng, G.flat(cs[:k] + [(h2, d, t)] + cs[k + 1:])), declared, seed, False, (datas, None, None)))
+                    continue
                 cs[k] = (h2, d, t)
             elif kind == "flip-sig":
                 i = h.index(b"=") + 1 + rng.below(64)
@@ -82,8 +86,10 @@ def gen_cases(ctx):
                 h2 = rng.choice([sz.upper() + b";" + rest, b"0" + sz + b";" + rest, sz + b"; " + rest, sz + b";" + rest.replace(b"chunk-signature", b"Chunk-Signature"),
                                  sz + b";" + rest[:-2] + b"\n", b" " + sz + b";" + rest, sz + b" ;" + rest, b"0x" + sz + b";" + rest,
                                  b"00000000" + sz + b";" + rest])
-                # spellings of the same size (upper case, leading zero) are a stated don't-care; the rest must fail
-                if h2.split(b";")[0].strip().lower().lstrip(b"0") == sz.lstrip(b"0") and h2.split(b";", 1)[1] == rest and not h2.startswith(b" ") and b" ;" not in h2:
+                # spellings that denote the same size under the size grammar the decoder uses (1..8 leading hexadecimal digits,
+                # either case; what follows them up to the ';' is ignored) with an untouched rest are a stated don't-care;
+                # everything else must fail
+                if same_size_spelling(h2, h):
                     out.append((kind, G.partition(rng, G.flat(cs[:k] + [(h2, d, t)] + cs[k + 1:])), declared, seed, False, (datas, None, None)))
                     continue
                 cs[k] = (h2, d, t)
@@ -165,6 +171,22 @@ def judge(exp, out):
     if must_fail is False and (not ok or delivered != b"".join(datas)):
         return "a complete, correctly signed upload was not delivered completely"
     return None
+
+
+def ref_size(field):
+    """the number a chunk-size field denotes: its 1..8 leading hexadecimal digits (nom hex_u32); None if there is none"""
+    n = 0
+    while n < len(field) and n < 8 and chr(field[n]) in "0123456789abcdefABCDEF":
+        n += 1
+    return int(field[:n], 16) if n else None
+
+
+def same_size_spelling(h2, h):
+    if b";" not in h2:
+        return False
+    a, ra = h2.split(b";", 1)
+    o, ro = h.split(b";", 1)
+    return ra == ro and a != b"" and ref_size(a) is not None and ref_size(a) == ref_size(o)
 
 
 def run(ctx):
